@@ -72,7 +72,7 @@ def generate(seed: int, tier: str):
         layouts.append({"kind": kind, "chunks": ch, "style": style})
     thin = bool(picker != "zncc" and min(shape) < 20)
     return {"property": PROPERTY, "seed": seed, "thin": thin, "picker": picker, "shape": shape, "scale": scale, "R": R, "n": n, "min_sep": min_sep, "margin": margin, "tb": tb,
-            "dtype": rng.choice(["float32", "float32", "float64", "int16", "uint8"]) if picker != "zncc" else rng.choice(["float32", "float64", "uint16", "float32"]),
+            "dtype": rng.choice(["float32", "float32", "float64", "int16", "uint8", "bool"]) if picker != "zncc" else rng.choice(["float32", "float64", "uint16", "float32"]),
             # detector counts: a background level far above the contrast (all pickers are offset invariant on paper)
             # (template matching only: LoG/DoG threshold at exactly 0, so on a non-zero background float rounding noise of the
             #  filter becomes "maxima"; the property speaks of an image containing particles, not of background invariance)
@@ -149,7 +149,9 @@ def build_image(sc):
             img += hann(shape, p, sc["R"], amp=float(rg.uniform(0.6, 1.5)))
     dt = np.dtype(sc["dtype"])
     off = float(sc.get("offset", 0.0))
-    if dt.kind in "iu":
+    if dt.kind == "b":
+        img = img > 0.35  # binary balls
+    elif dt.kind in "iu":
         gain = 100.0
         if dt == np.uint8:
             off = min(off, 0.3)  # 8 bits: keep the particle inside the range
